@@ -147,6 +147,9 @@ structure Worker (V : Type) where
   /-- which implementation is mirrored (configuration: no function changes it). `{}` = HEAD;
       `selectWaitsForAnswer` = notes/C05-fixes/01 (a FAILED target is answered in the first answer) -/
   variant : Variant := {}
+  /-- pids of persistent processes on this worker (configuration; the REPL process) — read by the variant
+      `releaseDead` only -/
+  persistent : List Nat := []
 
 /-- internal errors `Worker::step` can return (`EnvironmentError`) -/
 inductive IErr where
@@ -268,7 +271,13 @@ def Worker.handleCommand {V} (w : Worker V) : Cmd V → Except IErr (Worker V ×
     else .error .functionNotFound
   | .deliver target m =>
     -- `notify_message`: inject first (an error even if the target does not exist), then append, wake
-    if m.wf then .ok ({ w with ex := w.ex.notifyMessage target m.val }, []) else .error .heapData
+    -- variant `releaseDead`: the deliverability test comes first — a message for a process that is unknown here,
+    -- has failed, or has finished and is not persistent is dropped before its heap data is copied in
+    if w.variant.releaseDead &&
+        !(match w.ex.getProc target with
+          | some p => p.deliverable (decide (target ∈ w.persistent))
+          | none => false) then .ok ({ w with ex := w.ex.wake target }, [])
+    else if m.wf then .ok ({ w with ex := w.ex.notifyMessage target m.val }, []) else .error .heapData
   | .updateAwaitResults awaiter results =>
     match w.updateAwaitResults awaiter results with
     | .ok w' => .ok (w', [])
